@@ -12,7 +12,7 @@ def arithK (tr : K → K) : Arith K :=
     div := fun a b => a / b,
     lt := fun a b => decide (a < b), le := fun a b => decide (a ≤ b), beq := fun a b => decide (a = b),
     equal := GenK.Equal, trunc := tr,
-    sqrt2 := Env.sqrt 2, c1001 := 1001 / 1000, fmax := max }
+    sqrt2 := Env.sqrt 2, c1001 := 1001 / 1000, fmax := max, hypot1 := fun x => Env.hypot x 1 }
 
 def opsK (tr : K → K) (cd : K → List K → K → List K × Bool) : Ops K :=
   { arithK tr with
@@ -25,6 +25,7 @@ def opsK (tr : K → K) (cd : K → List K → K → List K × Bool) : Ops K :=
     rectTransform := Rect.Transform, rectAdd := Rect.Add,
     isSquareCap := fun k => k == 2,
     joinLimit := fun k => if k == 0 || k == 3 || k == 4 then some 4 else none,
+    joinClips := fun k => k == 4,
     checkDash := cd }
 
 end C15
